@@ -328,7 +328,7 @@ var verifFixedStatements = []string{
 // varied at a time (the others at their neutral value), so the space is the sum
 // of the feature spaces rather than their product.
 func verifLayoutInput() string {
-	feature := ndChoice("feature", 5)
+	feature := ndChoice("feature", 6)
 	lead, gap, trail := 0, 0, 0
 	switch feature {
 	case 0:
@@ -363,6 +363,10 @@ func verifLayoutInput() string {
 		}
 		if feature == 3 {
 			s += verifIndent()
+		}
+		if feature == 5 && k < n-1 && (st == "}\n" || st == "/* b1\nb2 */\n") && ndBool("joinNext") {
+			// the next statement starts on the line this one ends on
+			st = st[:len(st)-1] + " "
 		}
 		s += st
 	}
